@@ -1,6 +1,15 @@
 // Correspondence harness for C12: a scripted Emitter/Listener family drives the real
 // Callback::connect / disconnect / emit / destructors.  Objects are heap allocated so that ASan
 // sees any use after destruction; internals are only *read* through the access override.
+//
+// Signals of every arity 0..8 exist (three signals and four slots per arity), so each of the nine
+// emit / connect / disconnect templates of Callback.hpp is instantiated and executed.  The arity of
+// signal index sg in a case is given by the case configuration (`a<digits>`, one digit per signal
+// index, the last digit repeats; default 0).  Every emission passes arguments derived from a fresh
+// serial number; every slot checks that it received exactly those (`?bad-args` otherwise).
+// Em and Li have a non-empty first base, so the Callback::Emitter / Callback::Listener sub-objects
+// sit at a non-zero offset: Slot::receiver (Listener*) and Slot::object (void*, the full object)
+// are different addresses, as in client code with several bases.
 #include "vh.hpp"
 #define private public
 #define protected public
@@ -8,43 +17,114 @@
 #undef private
 #undef protected
 
-enum { MAXE = 4, MAXL = 4, NSG = 3, NSLOT = 4, MAXA = 16 };
+enum { MAXE = 4, MAXL = 4, NSG = 3, NSLOT = 4, MAXA = 16, NAR = 9 };
 
 struct Act { char k; int a, b, c, d; };   // k: c d e L E
 
 class Li;
 static void run_slot(Li* self, int s);
+static void check_args(bool ok);
+static int cur_serial();
 
-class Em : public Callback::Emitter
+// argument k of the emission with serial number n; positions alternate int / long
+static inline int mk(int n, int k) { return n * 8 + k + 1; }
+
+#define TYPES0
+#define TYPES1 int
+#define TYPES2 TYPES1, long
+#define TYPES3 TYPES2, int
+#define TYPES4 TYPES3, long
+#define TYPES5 TYPES4, int
+#define TYPES6 TYPES5, long
+#define TYPES7 TYPES6, int
+#define TYPES8 TYPES7, long
+#define PARAMS0
+#define PARAMS1 int a0
+#define PARAMS2 PARAMS1, long a1
+#define PARAMS3 PARAMS2, int a2
+#define PARAMS4 PARAMS3, long a3
+#define PARAMS5 PARAMS4, int a4
+#define PARAMS6 PARAMS5, long a5
+#define PARAMS7 PARAMS6, int a6
+#define PARAMS8 PARAMS7, long a7
+// the argument list of an emission, with a leading comma (it follows the signal)
+#define CARGS0(n)
+#define CARGS1(n) , mk(n, 0)
+#define CARGS2(n) CARGS1(n), (long)mk(n, 1)
+#define CARGS3(n) CARGS2(n), mk(n, 2)
+#define CARGS4(n) CARGS3(n), (long)mk(n, 3)
+#define CARGS5(n) CARGS4(n), mk(n, 4)
+#define CARGS6(n) CARGS5(n), (long)mk(n, 5)
+#define CARGS7(n) CARGS6(n), mk(n, 6)
+#define CARGS8(n) CARGS7(n), (long)mk(n, 7)
+#define OK0(n) true
+#define OK1(n) (a0 == mk(n, 0))
+#define OK2(n) (OK1(n) && a1 == (long)mk(n, 1))
+#define OK3(n) (OK2(n) && a2 == mk(n, 2))
+#define OK4(n) (OK3(n) && a3 == (long)mk(n, 3))
+#define OK5(n) (OK4(n) && a4 == mk(n, 4))
+#define OK6(n) (OK5(n) && a5 == (long)mk(n, 5))
+#define OK7(n) (OK6(n) && a6 == mk(n, 6))
+#define OK8(n) (OK7(n) && a7 == (long)mk(n, 7))
+#define FOR_ARITIES(M) M(0) M(1) M(2) M(3) M(4) M(5) M(6) M(7) M(8)
+
+struct PadE { long pe[3]; };
+struct PadL { long pl[5]; };
+
+class Em : public PadE, public Callback::Emitter
 {
 public:
   int id; unsigned magic;
-  void sig0() {}
-  void sig1() {}
-  void sig2() {}
-  void fire(int sg);
+#define DECL_SIG(A) void s##A##_0(PARAMS##A) {} void s##A##_1(PARAMS##A) {} void s##A##_2(PARAMS##A) {}
+  FOR_ARITIES(DECL_SIG)
+  void fire(int sg, int serial);
 };
-typedef void (Em::*Sig)();
-static Sig sigs[NSG] = { &Em::sig0, &Em::sig1, &Em::sig2 };
-void Em::fire(int sg) { emit(sigs[sg]); }
 
-class Li : public Callback::Listener
+class Li : public PadL, public Callback::Listener
 {
 public:
   int id; unsigned magic;
-  void slot0() { run_slot(this, 0); }
-  void slot1() { run_slot(this, 1); }
-  void slot2() { run_slot(this, 2); }
-  void slot3() { run_slot(this, 3); }
+#define DECL_SLOT1(A, S) void t##A##_##S(PARAMS##A) { check_args(OK##A(cur_serial())); run_slot(this, S); }
+#define DECL_SLOT(A) DECL_SLOT1(A, 0) DECL_SLOT1(A, 1) DECL_SLOT1(A, 2) DECL_SLOT1(A, 3)
+  FOR_ARITIES(DECL_SLOT)
 };
-typedef void (Li::*Slt)();
-static Slt slts[NSLOT] = { &Li::slot0, &Li::slot1, &Li::slot2, &Li::slot3 };
+
+#define TABLES(A) \
+  typedef void (Em::*Sig##A)(TYPES##A); static Sig##A sigs##A[NSG] = { &Em::s##A##_0, &Em::s##A##_1, &Em::s##A##_2 }; \
+  typedef void (Li::*Slt##A)(TYPES##A); static Slt##A slts##A[NSLOT] = { &Li::t##A##_0, &Li::t##A##_1, &Li::t##A##_2, &Li::t##A##_3 };
+FOR_ARITIES(TABLES)
+
+static int sgar[NSG];                              // arity of signal index sg in this case
+
+void Em::fire(int sg, int n)
+{
+  switch(sgar[sg]) {
+#define CASE_FIRE(A) case A: emit(sigs##A[sg] CARGS##A(n)); break;
+  FOR_ARITIES(CASE_FIRE)
+  }
+}
+
+// the map keys the library derives from the member function pointers
+static Callback::MemberFuncPtr sigkey(int sg)
+{
+  switch(sgar[sg]) {
+#define CASE_KEY(A) case A: return Callback::MemberFuncPtr(sigs##A[sg]);
+  FOR_ARITIES(CASE_KEY)
+  }
+  return Callback::MemberFuncPtr(sigs0[sg]);
+}
+static bool is_slot(const Callback::MemberFuncPtr& p, int k)
+{
+#define TEST_SLOT(A) if(Callback::MemberFuncPtr(slts##A[k]) == p) return true;
+  FOR_ARITIES(TEST_SLOT)
+  return false;
+}
 
 static int ne, nl, nsg, maxd, depth;
 static Em* em[MAXE]; static Li* li[MAXL];         // 0 when destroyed
 static Em* emp[MAXE]; static Li* lip[MAXL];       // addresses kept for the dumps
 static Act script[MAXL][NSLOT][MAXA]; static int nscript[MAXL][NSLOT];
-static int cur_e[64], cur_sg[64];
+static int cur_e[64], cur_sg[64], cur_n[64], serial;
 static char logbuf[1 << 16]; static size_t loglen;
 static char trbuf[1 << 23]; static size_t trlen;      // internal data of the emitting signal at every slot entry / exit
 
@@ -67,13 +147,25 @@ static bool okL(int l) { return l >= 0 && l < nl && li[l]; }
 static void perform(const Act& a)
 {
   switch(a.k) {
-  case 'c': if(okE(a.a) && okL(a.c) && a.b < nsg && a.d < NSLOT) Callback::connect(em[a.a], sigs[a.b], li[a.c], slts[a.d]); break;
-  case 'd': if(okE(a.a) && okL(a.c) && a.b < nsg && a.d < NSLOT) Callback::disconnect(em[a.a], sigs[a.b], li[a.c], slts[a.d]); break;
+  case 'c':
+    if(okE(a.a) && okL(a.c) && a.b < nsg && a.d < NSLOT)
+      switch(sgar[a.b]) {
+#define CASE_CONNECT(A) case A: Callback::connect(em[a.a], sigs##A[a.b], li[a.c], slts##A[a.d]); break;
+      FOR_ARITIES(CASE_CONNECT)
+      }
+    break;
+  case 'd':
+    if(okE(a.a) && okL(a.c) && a.b < nsg && a.d < NSLOT)
+      switch(sgar[a.b]) {
+#define CASE_DISCONNECT(A) case A: Callback::disconnect(em[a.a], sigs##A[a.b], li[a.c], slts##A[a.d]); break;
+      FOR_ARITIES(CASE_DISCONNECT)
+      }
+    break;
   case 'e':
     if(okE(a.a) && a.b < nsg && depth < maxd) {
-      cur_e[depth] = a.a; cur_sg[depth] = a.b;
+      cur_e[depth] = a.a; cur_sg[depth] = a.b; cur_n[depth] = ++serial;
       ++depth;
-      em[a.a]->fire(a.b);
+      em[a.a]->fire(a.b, cur_n[depth - 1]);
       --depth;
     }
     break;
@@ -89,13 +181,13 @@ static void snapshot(char tag, int e, int sg)
   if(trlen > sizeof(trbuf) - 4096) { printf("?trace-overflow\n"); abort(); }
   trlen += snprintf(trbuf + trlen, sizeof(trbuf) - trlen, "%s%c%d.%d:", trlen ? " " : "", tag, e, sg);
   if(!em[e]) { trlen += snprintf(trbuf + trlen, sizeof(trbuf) - trlen, "x"); return; }
-  Map<Callback::MemberFuncPtr, Callback::Emitter::SignalData>::Iterator it = em[e]->signalData.find(Callback::MemberFuncPtr(sigs[sg]));
+  Map<Callback::MemberFuncPtr, Callback::Emitter::SignalData>::Iterator it = em[e]->signalData.find(sigkey(sg));
   if(it == em[e]->signalData.end()) { trlen += snprintf(trbuf + trlen, sizeof(trbuf) - trlen, "x"); return; }
   bool first = true;
   for(List<Callback::Emitter::Slot>::Iterator i = it->slots.begin(), end = it->slots.end(); i != end; ++i) {
     if(trlen > sizeof(trbuf) - 4096) { printf("?trace-overflow\n"); abort(); }
     int l = -1; for(int k = 0; k < nl; ++k) if((Callback::Listener*)lip[k] == i->receiver) l = k;
-    int s = -1; for(int k = 0; k < NSLOT; ++k) if(Callback::MemberFuncPtr(slts[k]) == i->slot) s = k;
+    int s = -1; for(int k = 0; k < NSLOT; ++k) if(is_slot(i->slot, k)) s = k;
     trlen += snprintf(trbuf + trlen, sizeof(trbuf) - trlen, "%s%d.%d%s", first ? "" : ",", l, s,
                       i->state == Callback::Emitter::Slot::connected ? "" : i->state == Callback::Emitter::Slot::connecting ? "!c" : "!d");
     first = false;
@@ -105,6 +197,9 @@ static void snapshot(char tag, int e, int sg)
   for(Callback::Emitter::SignalActivation* a = it->activation; a && n < 64; a = a->next, ++n)
     trlen += snprintf(trbuf + trlen, sizeof(trbuf) - trlen, "%d", a->invalidated ? 1 : 0);
 }
+
+static int cur_serial() { return depth > 0 ? cur_n[depth - 1] : -1; }
+static void check_args(bool ok) { if(!ok) { printf("?bad-args\n"); abort(); } }
 
 static void run_slot(Li* self, int s)
 {
@@ -122,8 +217,8 @@ static void run_slot(Li* self, int s)
 }
 
 static int lidx(Callback::Listener* p) { for(int k = 0; k < nl; ++k) if((Callback::Listener*)lip[k] == p) return k; return -1; }
-static int sidx(const Callback::MemberFuncPtr& p) { for(int k = 0; k < NSLOT; ++k) if(Callback::MemberFuncPtr(slts[k]) == p) return k; return -1; }
-static int gidx(const Callback::MemberFuncPtr& p) { for(int k = 0; k < NSG; ++k) if(Callback::MemberFuncPtr(sigs[k]) == p) return k; return -1; }
+static int sidx(const Callback::MemberFuncPtr& p) { for(int k = 0; k < NSLOT; ++k) if(is_slot(p, k)) return k; return -1; }
+static int gidx(const Callback::MemberFuncPtr& p) { for(int k = 0; k < NSG; ++k) if(sigkey(k) == p) return k; return -1; }
 
 static void dump()
 {
@@ -133,7 +228,7 @@ static void dump()
     printf(" E%d[", e);
     bool firstsg = true;
     for(int sg = 0; sg < nsg; ++sg) {
-      Map<Callback::MemberFuncPtr, Callback::Emitter::SignalData>::Iterator it = em[e]->signalData.find(Callback::MemberFuncPtr(sigs[sg]));
+      Map<Callback::MemberFuncPtr, Callback::Emitter::SignalData>::Iterator it = em[e]->signalData.find(sigkey(sg));
       if(it == em[e]->signalData.end() || it->slots.isEmpty()) continue;
       printf("%s%d:", firstsg ? "" : ";", sg); firstsg = false;
       bool first = true;
@@ -172,7 +267,7 @@ static void dump()
   for(int e = 0; e < ne; ++e) {
     if(!em[e]) continue;
     for(int sg = 0; sg < nsg; ++sg) {
-      Map<Callback::MemberFuncPtr, Callback::Emitter::SignalData>::Iterator it = em[e]->signalData.find(Callback::MemberFuncPtr(sigs[sg]));
+      Map<Callback::MemberFuncPtr, Callback::Emitter::SignalData>::Iterator it = em[e]->signalData.find(sigkey(sg));
       if(it == em[e]->signalData.end()) continue;
       printf(" I%d.%d:%d%d", e, sg, it->dirty ? 1 : 0, it->activation ? 1 : 0); any = true;
     }
@@ -205,7 +300,13 @@ static void begin(long, vh::Tok& t)
   cleanup_objs();
   ne = t.n > 2 ? atoi(t.v[2]) : 2; nl = t.n > 3 ? atoi(t.v[3]) : 2; nsg = t.n > 4 ? atoi(t.v[4]) : 1; maxd = t.n > 5 ? atoi(t.v[5]) : 3;
   if(ne > MAXE) ne = MAXE; if(nl > MAXL) nl = MAXL; if(nsg > NSG) nsg = NSG; if(maxd > 60) maxd = 60;
-  depth = 0;
+  depth = 0; serial = 0;
+  // arities: `a<digits>`, digit k = arity of signal index k, the last digit repeats; default all 0
+  for(int k = 0; k < NSG; ++k) sgar[k] = 0;
+  if(t.n > 6 && t.v[6][0] == 'a' && t.v[6][1]) {
+    const char* d = t.v[6] + 1; int last = 0;
+    for(int k = 0; k < NSG; ++k) { if(*d) { last = *d >= '0' && *d <= '8' ? *d - '0' : 0; ++d; } sgar[k] = last; }
+  }
   memset(nscript, 0, sizeof(nscript));
   for(int e = 0; e < ne; ++e) { em[e] = new Em; em[e]->id = e; em[e]->magic = 0xE177E177u; emp[e] = em[e]; }
   for(int l = 0; l < nl; ++l) { li[l] = new Li; li[l]->id = l; li[l]->magic = 0x51075107u; lip[l] = li[l]; }
